@@ -50,10 +50,11 @@ def choose(ctx, name, n):
     return ctx.choose(name, n)
 
 
-def build_stream(ctx, K, A):
-    """K packets with symbolic header fields; returns (SymBytes stream, [dict per packet])"""
+def build_stream(ctx, K, A, skip=0):
+    """K packets with symbolic header fields, each preceded by `skip` arbitrary record-prefix bytes; returns (SymBytes stream, [dict per packet])"""
     items, pk = [], []
     for i in range(K):
+        items += [z3.BitVec(f"x{i}_{j}", 8) for j in range(skip)]
         dlen = 3 + i
         b0, b1, b2, b3 = (z3.BitVec(f"h{i}_{j}", 8) for j in range(4))
         apid = z3.Concat(z3.Extract(2, 0, b0), b1)                      # 11 bits
@@ -62,7 +63,7 @@ def build_stream(ctx, K, A):
         seq = z3.Concat(z3.Extract(5, 0, b2), b3)                       # 14 bits
         data = [z3.BitVec(f"d{i}_{j}", 8) for j in range(dlen)]
         raw = [b0, b1, b2, b3, (dlen - 1) >> 8, (dlen - 1) & 0xFF] + data
-        pk.append({"apid": apid, "flags": flags, "seq": seq, "raw": raw, "start": len(items)})
+        pk.append({"apid": apid, "flags": flags, "seq": seq, "raw": raw, "start": len(items) - skip})
         items += raw
     return bv.SymBytes(items), pk
 
@@ -109,7 +110,9 @@ class Segments(Harness):
         lib = self.lib
         K, A = self.job["params"]["K"], self.job["params"]["A"]
         s = choose(ctx, "s", 8)
-        stream, pk = build_stream(ctx, K, A)
+        skip = self.job["params"].get("skip", 0)
+        stream, pk = build_stream(ctx, K, A, skip)
+        kw = {"skip_header_bytes": skip} if skip else {}
         cut = None
         if self.job["params"].get("two_calls"):
             # the SAME definition object serves two sources one after the other (the first one may end inside a group): an open group of
@@ -121,7 +124,7 @@ class Segments(Harness):
             parts = [(stream, pk)]
         out, want, want_warn, end = [], [], [], "stop"
         for part, ppk in parts:
-            gen = self.definition.packet_generator(part, combine_segmented_packets=True, secondary_header_bytes=s)
+            gen = self.definition.packet_generator(part, combine_segmented_packets=True, secondary_header_bytes=s, **kw)
             try:
                 for p in gen:
                     out.append(p)
@@ -145,7 +148,7 @@ class Segments(Harness):
             obl.append((f"output {i} bytes", z3.And([bv.byte_term(x) == bv.byte_term(y) for x, y in zip(gi, w)] + [z3.BoolVal(True)])))
         observe = {"outputs": [bv.SymBytes(g.raw_data.items) for g in out if hasattr(g, "raw_data")], "warnings": got_warn, "end": end, "cls": "ran"}
         spec = {"outputs": [bv.SymBytes(w) for w in want], "warnings": want_warn, "end": "stop"}
-        return result(f"{len(want)}out/{len(want_warn)}warn", obl, observe=observe, spec=spec, inputs={"stream": stream, "s": s, "K": K, "cut": None if cut is None else pk[cut]["start"]})
+        return result(f"{len(want)}out/{len(want_warn)}warn", obl, observe=observe, spec=spec, inputs={"stream": stream, "s": s, "K": K, "cut": None if cut is None else pk[cut]["start"], "skip": skip})
 
 
 class Twin(Segments):
@@ -174,6 +177,8 @@ def jobs(tier):
     from checks import induct12
     return [{"name": f"K{K}-A{A}", "h": "seg", "params": {"K": K, "A": A}, "split": 16, "chunk": 40, "max_paths": 400000,
              "must_reach": ["1out/0warn", "0out/1warn", "2out/0warn"]} for K, A in cfgs] + induct12.jobs(tier) + [
+        {"name": "skip-prefix-K3", "h": "seg", "params": {"K": 3 if tier == "quick" else 4, "A": 1 if tier == "quick" else 2, "skip": 3}, "split": 16, "chunk": 40,
+         "max_paths": 400000, "must_reach": ["1out/0warn"]},
         {"name": "two-calls-K3", "h": "seg", "params": {"K": 3 if tier == "quick" else 4, "A": 1 if tier == "quick" else 2, "two_calls": True}, "split": 16, "chunk": 40,
          "max_paths": 400000, "must_reach": ["0out/1warn", "1out/0warn"]}]
 
@@ -195,7 +200,7 @@ def concrete(req):
         cut = i.get("cut")
         try:
             for part in ([stream] if cut is None else [stream[:cut], stream[cut:]]):
-                for p in d.packet_generator(part, combine_segmented_packets=True, secondary_header_bytes=i["s"]):
+                for p in d.packet_generator(part, combine_segmented_packets=True, secondary_header_bytes=i["s"], skip_header_bytes=i.get("skip", 0)):
                     outs.append({"hex": bytes(p.raw_data).hex()})
                     if len(outs) > i["K"] + 1:
                         break
@@ -217,8 +222,9 @@ def judge(req, got):
         return ("reproduced", "generator did not terminate") if got.get("cls") == "TIMEOUT" else ("error", str(got)[:300])
     i = req["input"]
     stream, s = bytes.fromhex(i["stream"]["hex"]), i["s"]
-    pk, o = [], 0
-    while o + 6 <= len(stream):
+    pk, o, skip = [], 0, i.get("skip", 0)
+    while o + skip + 6 <= len(stream):
+        o += skip
         n = 7 + int.from_bytes(stream[o + 4:o + 6], "big")
         pk.append(stream[o:o + n])
         o += n
@@ -227,7 +233,7 @@ def judge(req, got):
     for p in pk:
         if cut is not None and o == cut:
             state = {}             # second generator call: nothing of the first source is remembered
-        o += len(p)
+        o += len(p) + skip
         apid = ((p[0] & 7) << 8) | p[1]
         flags, seq = p[2] >> 6, ((p[2] & 0x3F) << 8) | p[3]
         if flags == 3:
@@ -247,11 +253,11 @@ def judge(req, got):
                 warns.append("gap")
     want = [{"hex": x.hex()} for x in outs]
     if got["end"] != "stop":
-        return "reproduced", f"stream {stream.hex()} s={s}{'' if cut is None else f' fed as two sources cut at byte {cut}'}: generator ended with {got['end']}"
+        return "reproduced", f"stream {stream.hex()} skip_header_bytes={skip} s={s}{'' if cut is None else f' fed as two sources cut at byte {cut}'}: generator ended with {got['end']}"
     if got["outputs"] != want:
-        return "reproduced", f"stream {stream.hex()} s={s}{'' if cut is None else f' fed as two sources cut at byte {cut}'}: expected outputs {[x['hex'] for x in want]}, got {[x['hex'] for x in got['outputs']]}"
+        return "reproduced", f"stream {stream.hex()} skip_header_bytes={skip} s={s}{'' if cut is None else f' fed as two sources cut at byte {cut}'}: expected outputs {[x['hex'] for x in want]}, got {[x['hex'] for x in got['outputs']]}"
     if got["warnings"] != warns:
-        return "reproduced", f"stream {stream.hex()} s={s}{'' if cut is None else f' fed as two sources cut at byte {cut}'}: expected warnings {warns}, got {got['warnings']}"
+        return "reproduced", f"stream {stream.hex()} skip_header_bytes={skip} s={s}{'' if cut is None else f' fed as two sources cut at byte {cut}'}: expected warnings {warns}, got {got['warnings']}"
     return "not-reproduced", "agrees with the reference state machine"
 
 
